@@ -84,7 +84,14 @@ def impl(case):
         except Exception as ex:
             res.append({'build': 'err:' + type(ex).__name__})
             continue
-        tree = X.to_json(w.ser(e))
+        try:
+            tree = X.to_json(w.ser(e))
+        except ValueError as ex:
+            res.append({'build': 'skip:' + str(ex)})
+            continue
+        if 'ImaginaryUnit' in json.dumps(tree):
+            res.append({'build': 'skip:complex'})
+            continue
         try:
             u = w.store.evaluate_units(e)
             out = ['ok', w.store.format(u, base_units=True), str(u)]
